@@ -28,7 +28,7 @@ try:
         res = []
         for i, f in enumerate(flags):
             exe = "%s/demo_%s_%d" % (wt, tag, i)
-            c = sh("g++ -std=c++17 -O2 -w %s -I%s/include %s -o %s" % (" ".join(f), wt, os.path.join(src, "demo.cpp"), exe))
+            c = sh("g++ -std=c++17 -O2 -w %s -I%s/include %s -o %s -lmpfr -lgmp -lpthread" % (" ".join(f), wt, os.path.join(src, "demo.cpp"), exe))
             if c.returncode:
                 res.append({"flags": f, "compile_failed": c.stderr[-500:]})
                 continue
